@@ -125,19 +125,54 @@ func runC19(c *Ctx) {
 	}
 	c.Floor("C19-R1", "'stored > latest' branch", nRev, 1)
 	c.Floor("C19-R1", "'stored < latest' branch", nUp, 1)
-	// migration loop
+	// migration loop: in upgrade itself, or in a same-package helper that upgrade calls (extracted loop)
 	loops := loopsOf(up)
+	loopFn := up
 	var mloop *Loop
+	var helperCall *ssa.Call
 	for _, l := range loops {
 		if l.containsInstr(isMigrationCall) {
 			mloop = l
 		}
 	}
 	if mloop == nil {
-		c.Check("C19-R1", "migration-loop", up.Pos(), false, "upgrade has no loop that calls the migrations (undecided)")
+		for _, ci := range callsOf(up) {
+			call, ok := ci.(*ssa.Call)
+			if !ok {
+				continue
+			}
+			h := call.Call.StaticCallee()
+			if h == nil || fnPkgPath(h) != fnPkgPath(up) || h == up {
+				continue
+			}
+			for _, l := range loopsOf(h) {
+				if l.containsInstr(isMigrationCall) {
+					mloop, loopFn, helperCall = l, h, call
+				}
+			}
+		}
+	}
+	// "the migrations run here": the loop header (same function) or the helper call
+	atMigrations := func(ins ssa.Instruction) bool {
+		if helperCall != nil {
+			return ins == ssa.Instruction(helperCall)
+		}
+		return mloop != nil && ins.Block() == mloop.Header
+	}
+	if mloop == nil {
+		c.Check("C19-R1", "migration-loop", up.Pos(), false, "upgrade has no loop that calls the migrations, neither directly nor in a helper it calls (undecided)")
 	} else {
+		// what is ranged over: VersionsToApply(stored, table), possibly passed through the helper's parameter
+		over := mloop.OverVal
+		if helperCall != nil {
+			if prm, ok := over.(*ssa.Parameter); ok {
+				if i := paramIndex(loopFn, prm); i >= 0 && i < len(helperCall.Call.Args) {
+					over = helperCall.Call.Args[i]
+				}
+			}
+		}
 		okOver := false
-		if call, ok := mloop.OverVal.(*ssa.Call); ok && call.Call.StaticCallee() == vta {
+		if call, ok := over.(*ssa.Call); ok && call.Call.StaticCallee() == vta {
 			okOver = cur(call.Call.Args[0]) && isResultOfInvoke(call.Call.Args[1], "Versions", -1)
 		}
 		c.Check("C19-R1", "loop-over-VersionsToApply(stored,table)", mloop.Header.Instrs[0].Pos(), okOver && (mloop.Kind == "rangeindex" || mloop.Kind == "forindex"),
@@ -153,7 +188,7 @@ func runC19(c *Ctx) {
 			return ok && fl == "Migration"
 		})
 		c.Check("C19-R1", "each-non-nil-migration-called", mloop.Header.Instrs[0].Pos(), bad == "", "a pending non-nil migration can be skipped ("+bad+")")
-		// migration error: no path to SetVersion, error returned
+		// migration error: every path from the error edge is an error return of the loop's function ...
 		for b := range mloop.Blocks {
 			for _, ins := range b.Instrs {
 				call, ok := ins.(*ssa.Call)
@@ -166,7 +201,7 @@ func runC19(c *Ctx) {
 						if f == nil || f.Kind != "nonnil" || f.V != ssa.Value(call) {
 							continue
 						}
-						q := &PathQuery{Fn: up}
+						q := &PathQuery{Fn: loopFn}
 						q.Target = func(ins ssa.Instruction, via *ssa.BasicBlock) bool {
 							if isSetVersion(ins) || isMigrationCall(ins) {
 								return true
@@ -183,6 +218,35 @@ func runC19(c *Ctx) {
 				}
 			}
 		}
+		// ... and, when the loop lives in a helper, the helper's error stops upgrade before SetVersion
+		if helperCall != nil {
+			n := 0
+			for _, b := range up.Blocks {
+				for si := range b.Succs {
+					f := edgeFactOf(b, si)
+					if f == nil || f.Kind != "nonnil" || !loadIsResultOf(f.V, helperCall) {
+						continue
+					}
+					n++
+					q := &PathQuery{Fn: up}
+					q.Target = func(ins ssa.Instruction, via *ssa.BasicBlock) bool {
+						if isSetVersion(ins) {
+							return true
+						}
+						if r, ok := ins.(*ssa.Return); ok {
+							return p.classifyReturn(r, via) != retError
+						}
+						return false
+					}
+					hits := exploreFromBlock(q, b.Succs[si], b)
+					c.Check("C19-R1", "failed-migration-helper-stops-upgrade", lastPos(b), len(hits) == 0, "an error from the migration helper does not stop upgrade before the version is recorded")
+				}
+			}
+			if n == 0 {
+				// direct `return helper(...)`-style or untested result
+				c.Check("C19-R1", "failed-migration-helper-stops-upgrade", helperCall.Pos(), false, "the result of the migration helper is not tested before the version is recorded")
+			}
+		}
 	}
 	// SetVersion: once, outside any loop, after the loop, with the latest version
 	var sets []*ssa.Call
@@ -193,14 +257,39 @@ func runC19(c *Ctx) {
 	}
 	c.Check("C19-R1", "single-SetVersion-site", up.Pos(), len(sets) == 1, fmt.Sprintf("upgrade has %d SetVersion call sites (expected exactly one)", len(sets)))
 	for _, sv := range sets {
-		inLoop := innermostLoopOf(loops, sv) != nil
+		inLoop := innermostLoopOf(loops, sv) != nil || sv.Parent() != up
 		c.Check("C19-R1", "SetVersion-outside-loop", sv.Pos(), !inLoop,
 			"the stored version is advanced inside the migration loop: a failure at a later migration leaves the version changed")
+		// a failed version write is an error of the upgrade
+		foundErrEdge := false
+		for _, b := range up.Blocks {
+			for si := range b.Succs {
+				f := edgeFactOf(b, si)
+				if f == nil || f.Kind != "nonnil" || !loadIsResultOf(f.V, sv) {
+					continue
+				}
+				foundErrEdge = true
+				q := &PathQuery{Fn: up, Target: p.nonErrorReturn()}
+				hits := exploreFromBlock(q, b.Succs[si], b)
+				c.Check("C19-R1", "failed-version-write-is-reported", lastPos(b), len(hits) == 0,
+					"upgrade reports success although recording the new version failed: the enclosing transaction commits the migrated data under the old version and the migrations run again on the next start")
+			}
+		}
+		if !foundErrEdge {
+			// `return mgr.SetVersion(...)` is fine; otherwise the result is unused
+			direct := false
+			for _, u := range usesOf(sv) {
+				if _, ok := u.(*ssa.Return); ok {
+					direct = true
+				}
+			}
+			c.Check("C19-R1", "failed-version-write-is-reported", sv.Pos(), direct, "the result of SetVersion is neither tested nor returned")
+		}
 		okArg := len(sv.Call.Args) == 2 && latest(sv.Call.Args[1])
 		c.Check("C19-R1", "SetVersion-records-latest", sv.Pos(), okArg, "SetVersion is not called with GetLatestVersion(table)")
 		if mloop != nil && !inLoop {
-			// every path to SetVersion passes the loop header
-			q := &PathQuery{Fn: up, Barrier: func(ins ssa.Instruction) bool { return ins.Block() == mloop.Header }}
+			// every path to SetVersion passes the migrations
+			q := &PathQuery{Fn: up, Barrier: atMigrations}
 			q.Target = func(ins ssa.Instruction, via *ssa.BasicBlock) bool { return ins == ssa.Instruction(sv) }
 			c.Check("C19-R1", "SetVersion-after-migrations", sv.Pos(), len(q.From(nil)) == 0, "the version can be recorded before the migrations ran")
 		}
